@@ -371,6 +371,14 @@ func (f *kindFlow) Instr(in ssa.Instruction, s *kindState) *kindState {
 		if al, ok := x.Addr.(*ssa.Alloc); ok && isReflectValue(x.Val.Type()) {
 			s.vals[al] = f.wrapOf(x.Val, s, 0)
 		}
+		// the channel (or the value to send) of a reflect.SelectCase: reflect.Select needs the channel itself, not its wrapper
+		if fa, ok := x.Addr.(*ssa.FieldAddr); ok && isReflectValue(x.Val.Type()) {
+			if pt, ok := fa.X.Type().Underlying().(*types.Pointer); ok && pt.Elem().String() == "reflect.SelectCase" && fieldOfAddr(fa).Name() == "Chan" {
+				if f.wrapOf(x.Val, s, 0) == wYes {
+					f.report(x, x.Val, "a value that is still wrapped in an interface is given to reflect.Select as the channel of a case (reflect.Select fails on the wrapper: a channel read from a list or passed as a list element cannot be received from)")
+				}
+			}
+		}
 		if f.base != nil {
 			switch f.a.m.cellAddr(x.Addr, f.base) {
 			case "rv":
